@@ -572,6 +572,106 @@ def check_satisfier_as_provider(chk, F, rid="R17.11"):
     chk.floor(rid, "look-up cases", n, 26)
 
 
+# ---- R17.12 the loop that completes a template, and the last step of a direct satisfaction ------------------------------------
+
+def check_completion_loop(chk, F, rid="R17.12"):
+    import itertools
+    from ..interp import Machine, Adt, PyVec, Panic, some, NONE
+    from ..builtins import deref
+    chk.rule(rid, "Satisfaction::try_completing turns a template into the witness element by element: the elements "
+                  "Placeholder::satisfy_self returns, in the template's order, none dropped or repeated; None as soon as one "
+                  "placeholder cannot be completed; Unavailable / Impossible stay what they are; has_sig and both locks are "
+                  "passed on unchanged; Miniscript::_satisfy returns the stack of a Stack witness and CouldNotSatisfy for "
+                  "Unavailable / Impossible; Plan::satisfaction_weight = witness_size + 4 * scriptsig_size")
+    tc = [q for q in F.fns if q.endswith("::try_completing") and "Placeholder" in q]
+    ss = [q for q in F.fns if q.endswith("Placeholder::<Pk>::satisfy_self")]
+    sat = [q for q in F.fns if q.endswith("Miniscript<Pk, Ctx>>::_satisfy")]
+    if len(tc) != 1 or len(ss) != 1 or len(sat) != 1:
+        chk.fail(rid, "anchor", "try_completing / satisfy_self / _satisfy not found (%d, %d, %d)" % (len(tc), len(ss), len(sat)),
+                 kind="unanalysable")
+        return
+    chk.saw(tc[0], sat[0])
+    WIT = satmodel.WIT
+    failing = set()
+    asked = []
+
+    def self_hook(m_, a, c):
+        ph = deref(a[0])
+        asked.append(ph)
+        return NONE if ph in failing else some(("bytes-of", ph))
+    m = Machine(F, strict=True, hooks={ss[0]: self_hook})
+    n = 0
+    try:
+        for ln in range(0, 4):
+            stack = ["p%d" % i for i in range(ln)]
+            for fail in [None] + list(range(ln)):
+                for has_sig, rel, ab in ((True, some(Term("REL")), NONE), (False, NONE, some(Term("ABS")))):
+                    failing.clear()
+                    del asked[:]
+                    if fail is not None:
+                        failing.add(stack[fail])
+                    tpl = Adt(SAT, "Satisfaction", {"stack": Adt(WIT, "Stack", {"0": PyVec(list(stack))}), "has_sig": has_sig,
+                                                    "relative_timelock": rel, "absolute_timelock": ab})
+                    r = m.call_callee({"def": tc[0], "resolved": tc[0], "name": "try_completing", "targs": ["PK", "SAT"]}, [tpl, Term("stfr")])
+                    n += 1
+                    key = "try_completing|len=%d|fails=%s|has_sig=%s" % (ln, fail, has_sig)
+                    if fail is not None:
+                        chk.obligation(rid, r.variant == "None", key, "placeholder %d cannot be completed but the result is %r" % (fail, r),
+                                       where="src/miniscript/satisfy/mod.rs")
+                        continue
+                    bad = []
+                    if r.variant != "Some":
+                        bad.append("result %r" % (r,))
+                    else:
+                        v = deref(r.fields["0"])
+                        st = deref(v.fields["stack"])
+                        got = [deref(x) for x in deref(st.fields["0"]).items] if st.variant == "Stack" else st
+                        if got != [("bytes-of", x) for x in stack]:
+                            bad.append("witness %r for the template %r" % (got, stack))
+                        if v.fields["has_sig"] is not has_sig or repr(v.fields["relative_timelock"]) != repr(rel) \
+                                or repr(v.fields["absolute_timelock"]) != repr(ab):
+                            bad.append("has_sig / locks (%r, %r, %r), the template has (%r, %r, %r)" % (
+                                v.fields["has_sig"], v.fields["relative_timelock"], v.fields["absolute_timelock"], has_sig, rel, ab))
+                    chk.obligation(rid, not bad, key, "; ".join(bad), where="src/miniscript/satisfy/mod.rs")
+        for kind in ("Unavailable", "Impossible"):
+            tpl = Adt(SAT, "Satisfaction", {"stack": Adt(WIT, kind, {}), "has_sig": False, "relative_timelock": NONE,
+                                            "absolute_timelock": some(Term("ABS"))})
+            r = m.call_callee({"def": tc[0], "resolved": tc[0], "name": "try_completing", "targs": ["PK", "SAT"]}, [tpl, Term("stfr")])
+            n += 1
+            good = r.variant == "Some" and deref(deref(r.fields["0"]).fields["stack"]).variant == kind
+            chk.obligation(rid, good, "try_completing|" + kind, "a template that is %s completes to %r" % (kind, r),
+                           where="src/miniscript/satisfy/mod.rs")
+            s_ = Adt(SAT, "Satisfaction", {"stack": Adt(WIT, kind, {}), "has_sig": False, "relative_timelock": NONE, "absolute_timelock": NONE})
+            r = m.call_callee({"def": sat[0], "resolved": sat[0], "name": "_satisfy", "targs": ["PK", "CTX"]}, [Term("ms"), s_])
+            n += 1
+            chk.obligation(rid, r.variant == "Err" and "CouldNotSatisfy" in repr(r), "_satisfy|" + kind,
+                           "a %s satisfaction is returned as %r" % (kind, r), where="src/miniscript/mod.rs")
+        s_ = Adt(SAT, "Satisfaction", {"stack": Adt(WIT, "Stack", {"0": PyVec(["e0", "e1"])}), "has_sig": True, "relative_timelock": NONE,
+                                       "absolute_timelock": NONE})
+        r = m.call_callee({"def": sat[0], "resolved": sat[0], "name": "_satisfy", "targs": ["PK", "CTX"]}, [Term("ms"), s_])
+        n += 1
+        good = r.variant == "Ok" and [deref(x) for x in deref(r.fields["0"]).items] == ["e0", "e1"]
+        chk.obligation(rid, good, "_satisfy|Stack", "a Stack satisfaction [e0, e1] is returned as %r" % (r,), where="src/miniscript/mod.rs")
+        # Plan::satisfaction_weight
+        sw = [q for q in F.fns if q.endswith("Plan::<Pk>::satisfaction_weight")]
+        ws = [q for q in F.fns if q.endswith("Plan::<Pk>::witness_size")]
+        sg = [q for q in F.fns if q.endswith("Plan::<Pk>::scriptsig_size")]
+        if len(sw) == 1 and len(ws) == 1 and len(sg) == 1:
+            chk.saw(sw[0])
+            m2 = Machine(F, strict=True, hooks={ws[0]: lambda m_, a, c: 1000, sg[0]: lambda m_, a, c: 7})
+            r = m2.call_callee({"def": sw[0], "resolved": sw[0], "name": "satisfaction_weight", "targs": ["PK"]}, [Term("plan")])
+            n += 1
+            chk.obligation(rid, r == 1028, "satisfaction_weight", "with witness_size 1000 and scriptsig_size 7 the weight is %r, "
+                           "expected 1000 + 4 * 7" % (r,), where="src/plan.rs")
+        else:
+            chk.fail(rid, "anchor|satisfaction_weight", "Plan::satisfaction_weight / witness_size / scriptsig_size not found", kind="unanalysable")
+    except Unsupported as e:
+        chk.fail(rid, "unanalysable", "unanalysable: %s" % e, where=e.where, kind="unanalysable")
+    except Panic as e:
+        chk.fail(rid, "panic", "panic: %s" % e, where="src/miniscript/satisfy/mod.rs")
+    chk.floor(rid, "cases", n, 25)
+
+
 def run(chk):
     F = chk.facts()
     chk.explanation = (
@@ -608,3 +708,4 @@ def run(chk):
     chk.guard("R17.9", "placeholder-completion", check_placeholder_completion, chk, F)
     chk.guard("R17.10", "assets-provider", check_assets_provider, chk, F)
     chk.guard("R17.11", "satisfier-as-provider", check_satisfier_as_provider, chk, F)
+    chk.guard("R17.12", "completion-loop", check_completion_loop, chk, F)
